@@ -40,7 +40,7 @@ def body():
 
     chk.assume(
         "the potential operators and map_to_point_cloud of the library are used on the right-hand side (relation between two observables of the library)",
-        "translated copies by (3,-6,1) resp. (-2,4,1) of meshes of diameter <= 6.5 do not touch the original; pairs of different meshes use the same translations",
+        "translated copies by (3,-6,1), (-2,4,1) resp. (6,-12,1) of meshes of diameter <= 6.5 do not touch the original; pairs of different meshes use the same translations",
         "Maxwell electric field: agreement up to quadrature error only, judged for well separated grids (distance >= largest element diameter) and test "
         "spaces without boundary dofs (the identity integrates by parts on the test side): 5e-3 at order 4, 1e-4 at order 7",
     )
@@ -63,8 +63,20 @@ def body():
     for a, bb in zip(obs, obs[1:] + obs[:1]):
         if a["mesh"] != bb["mesh"]:
             pairs.append((a["mesh"], a["xyz"], a["el"], bb["mesh"] + "+t(%d)" % bb["act"]["p"], bb["xyz2"], bb["el2"]))
+    # far pairs of different meshes (the quadrature-limited electric-field clause is judged for well separated grids)
+    firsts = {}
+    for ob in obs:
+        firsts.setdefault(ob["mesh"], ob)
+    far = [ob for ob in obs if ob["act"]["p"] == 6]
+    for i, bb in enumerate(far):
+        others = [m for m in sorted(firsts) if m != bb["mesh"]]
+        a = firsts[others[i % len(others)]]
+        pairs.append((a["mesh"], a["xyz"], a["el"], bb["mesh"] + "+t(6)", bb["xyz2"], bb["el2"]))
     if quick:
-        pairs = pairs[:6]
+        same = [q for q in pairs if q[3].startswith(q[0] + "+t")]
+        diff = [q for q in pairs if not q[3].startswith(q[0] + "+t")]
+        diff.sort(key=lambda q: not q[3].endswith("+t(6)"))     # far pairs first: the electric-field clause is judged for well separated grids
+        pairs = same[:3] + diff[:3]        # different meshes: element k of grid A and element k of grid B have different sizes
     b = api.operators.boundary
     p = api.operators.potential
     par = api.GLOBAL_PARAMETERS
@@ -84,7 +96,7 @@ def body():
             if dmin < 1.0:
                 raise common.MachineryError("grids of the pair %s touch (distance %.3g)" % (label, dmin))
             for order in (4,) if quick else (4, 7):
-                par.quadrature.regular, par.quadrature.singular = order, 4
+                par.quadrature.regular, par.quadrature.singular = order, order - 1    # disjoint grids: the singular order must not matter
                 pts, w = rule(order)
                 nq = len(w)
                 cloud = gB.map_to_point_cloud(order)
